@@ -9,3 +9,12 @@
 #else
   #define THREAD_LOCAL __thread
 #endif
+
+// Verification hook: loop contracts of the contract-based verification build are
+// attached between a loop's header and its body. Expands to nothing in every
+// other build.
+#if defined(REPROC_VERIF)
+  #define REPROC_VERIF_LOOP(name) REPROC_VERIF_LOOP_##name
+#else
+  #define REPROC_VERIF_LOOP(name)
+#endif
